@@ -269,6 +269,23 @@ J gen_tunnel(uint64_t seed, const J &ov)
 		cfg.set("dur_s", (int)(W + 45));
 		cfg.set("tmax_s", 1200);
 		cfg.set("max_events", 1500000);
+		if (ov.has("two") ? ov.getb("two") : r.chance(0.2)) {
+			// two sessions on one slot over two different paths: the client is stopped, the slot expires, the path changes, a new
+			// client negotiates afresh; whatever the first session selected must not survive in the server's slot
+			cfg.set("two_sessions", true);
+			cfg.set("relay2", gen_relay(r));
+			double tr = W + 20, after = 62 + r.uniform() * 8;
+			{ J op = J::obj(); op.set("t", (long long)(tr * 1e6)); op.set("op", "restart"); op.set("task", "c0"); op.set("after_us", (long long)(after * 1e6)); ops.push(op); }
+			{ J op = J::obj(); op.set("t", (long long)((tr + 1) * 1e6)); op.set("op", "relay_switch"); ops.push(op); }
+			double t2 = tr + after + 50;
+			for (int i = 0; i < 12; i++) {
+				J op = J::obj(); op.set("t", (long long)((t2 + i * 0.7 + r.uniform() * 0.3) * 1e6)); op.set("op", "tun"); op.set("ser", (long long)++ser);
+				op.set("len", (int)r.range(40, 300)); op.set("body", r.chance(0.7) ? "rnd" : "text");
+				if (i % 2) { op.set("at", "c0"); op.set("dst", "srv"); op.set("src", "c0"); } else { op.set("at", "srv"); op.set("dst", "c0"); op.set("src", "ext"); }
+				ops.push(op);
+			}
+			cfg.set("dur_s", (int)(t2 + 30));
+		}
 	} else if (mode == "redeliver") {
 		// C16: otherwise clean path; the only fault kind is re-delivery of queries (verbatim, new id, re-cased, other source)
 		double W = 10 + r.uniform() * 30;
@@ -374,7 +391,27 @@ World *build_tunnel(const J &plan)
 	if (relay) s += "|relay:" + relay->sig();
 	w->sig = s;
 	World *ww = w;
-	if (mode == "relayfam" && relay) {
+	bool two = mode == "relayfam" && relay && w->cfg.getb("two_sessions");
+	if (two) {
+		Relay *rl = relay; J cfg2 = w->cfg["relay2"];
+		auto sig1 = std::make_shared<std::string>(relay->sig());
+		w->op_hook = [rl, cfg2, ww](const J &op) { if (op.gets("op") != "relay_switch") return false; *rl = [&]() { Relay n; n.S = rl->S; n.srv_host = rl->srv_host; n.configure(cfg2); return n; }(); ww->S.count("op.relay_switch"); return true; };
+		w->add(mk_second_session(w));
+		w->result_hooks.push_back([ww, rl, sig1](J &r) {
+			(void)r;
+			if (ww->S.capped || ww->clients.size() < 2) return;
+			const J &c0 = ww->cfg["clients"].a[0];
+			std::string ft = c0.gets("qtype");
+			static const int qts[7] = {QT_NULL, QT_PRIVATE, QT_TXT, QT_SRV, QT_MX, QT_CNAME, QT_A};
+			bool some_type = false;
+			for (int i = 0; i < 7; i++) { if (!ft.empty() && ft != TYPES[i]) continue; if (rl->passes_type(qts[i])) some_type = true; }
+			bool must = some_type && (rl->maxans == 0 || rl->maxans >= 512);
+			ww->probes[must ? "c11.second.must_succeed" : "c11.second.may_fail"]++;
+			if (ww->clients[1].in_tunnel) ww->probes["c11.second.handshake_ok"]++;
+			else if (must && ww->clients[0].in_tunnel) ww->S.violations.push_back({"C11", "negotiation.failed.second", "second session on the same slot: the new path passes Base32 names, answers up to 512 bytes and a usable record type (" + rl->sig() + "; the first session ran over " + *sig1 + "), but the new client's handshake did not complete"});
+		});
+	}
+	if (mode == "relayfam" && relay && !two) {
 		Relay *rl = relay;
 		w->result_hooks.push_back([ww, rl](J &r) {
 			(void)r;
@@ -410,7 +447,7 @@ World *build_tunnel(const J &plan)
 		if (mode == "redeliver") nt = nt && ww->probes["c16.redelivered"] >= 1;
 		if (mode == "inject9") nt = ww->all_in_tunnel && ww->probes["c09.inj_packets_acked"] >= 3;
 		if (mode == "names") nt = ww->all_in_tunnel && ww->probes["c08.full_chunks"] >= 1 && ww->probes["c08.tail_chunks"] >= 1;
-		if (mode == "relayfam") nt = ww->all_in_tunnel && ww->probes["c02.acc_c"] >= 3 && ww->probes["c02.acc_s"] >= 3;
+		if (mode == "relayfam") nt = ww->all_in_tunnel && ((ww->probes["c02.acc_c"] >= 3 && ww->probes["c02.acc_s"] >= 3) || ww->probes["c11.second.handshake_ok"] >= 1);
 		r.set("nontriv", nt);
 	});
 	return w;
